@@ -700,3 +700,7 @@ NOT_PROVED = [('floating-point rounding of the normal-equation solve (theorems a
 PROOF_MODULES = PROOF_MODULES + [m for m in ['Compute.Lemmas.Rounding6', 'Compute.Props.Rounding6'] if m not in PROOF_MODULES]
 REQUIRED_THEOREMS = REQUIRED_THEOREMS + ['Cv.Rounding6.fit_residual', 'Cv.Rounding6.vandermonde_entry_fac', 'Cv.Rounding6.powi_fac', 'Cv.Rounding6.invertMatrix_residual', 'Cv.Rounding6.normal_residual_core']
 NOT_PROVED = list(NOT_PROVED) + ['floating-point rounding of the normal-equation route IS bounded end to end in the standard model (Props/Rounding6 fit_residual): the route forms an explicit inverse and multiplies, so the statement is a residual bound |V^T V c - V^T y| <= gamma_(3p+1) W Z + gamma_(p+1) |G| Z + gamma_(N+1)(|V|^T|V||c| + |V|^T|y|), Z = |X||b|, W = |L||L^T| or P^T|L||U| (computed factors), V the computed Vandermonde matrix (entries x^j(1+th), <= j roundings); a bound in terms of cond(V^T V) alone needs the unproved growth of the LU route and a bound on |X| - oracle only; on the LU route non-zero pivots are assumed']
+
+# --- source tie (translator pass 5: PolynomialRegressor::fit as a whole function, Generated/SrcC14Mut.lean, Props/SrcTieC14Mut.lean)
+from . import srctie
+srctie.wire_mut(globals(), 'C14')
